@@ -1089,3 +1089,25 @@ package ircserver
 //@   ensures secret: forall k int :: 0 <= k && k < len(a.CaptchaHMACSecret) ==> a.CaptchaHMACSecret[k] == b.CaptchaHMACSecret[k]
 //@   ensures operators: forall k int :: 0 <= k && k < len(a.IRC.Operators) ==> a.IRC.Operators[k].Name == b.IRC.Operators[k].Name && a.IRC.Operators[k].Password == b.IRC.Operators[k].Password
 //@   ensures services: forall k int :: 0 <= k && k < len(a.IRC.Services) ==> a.IRC.Services[k].Password == b.IRC.Services[k].Password
+
+// ---------------------------------------------------------------------------
+// C20: lock discipline. Which mutex protects what (checked at every access in
+// the functions of plan C20; only with lock tracking on).
+//@ guard Session.* by IRCServer.sessionsMu
+//@ guard channel.* by IRCServer.sessionsMu
+//@ guard IRCServer.sessions by IRCServer.sessionsMu
+//@ guard IRCServer.nicks by IRCServer.sessionsMu
+//@ guard IRCServer.channels by IRCServer.sessionsMu
+//@ guard IRCServer.svsholds by IRCServer.sessionsMu
+//@ guard IRCServer.serverSessions by IRCServer.sessionsMu
+//@ guard IRCServer.lastProcessed by IRCServer.lastProcessedMu
+//@ guard IRCServer.Config by IRCServer.ConfigMu
+// helpers that are called with the session lock held
+//@ func IRCServer.getSessionLocked
+//@   requires locks-held: i.sessionsMu.writerSem == 1 || i.sessionsMu.readerSem >= 1
+//@ func IRCServer.createSessionLocked
+//@   requires locks-held: i.sessionsMu.writerSem == 1
+//@ func IRCServer.deleteSessionLocked
+//@   requires locks-held: i.sessionsMu.writerSem == 1
+//@ func IRCServer.maybeDeleteChannelLocked
+//@   requires locks-held: i.sessionsMu.writerSem == 1
